@@ -120,6 +120,10 @@ def choice_part(chk, vh, quick):
             raise vlib.ToolError("choice-child failed: " + r.stderr[-800:])
         p = os.path.join(wd, "h%d.ndjson" % k)
         open(p, "w").write(r.stdout)
+        if '"kind":"P"' in r.stdout:
+            chk.violation("a read or write of the global ColorChoice panicked while %d threads were using it (an operation of the register never completed)" % threads,
+                          {"kind": "choice-panic", "threads": threads, "rounds": rounds, "events": [json.loads(l) for l in r.stdout.split("\n") if '"kind":"P"' in l][:10]})
+            continue
         jobs.append((p, threads, rounds, ops, r.stdout.count("\n")))
 
     def search(p, name):
@@ -174,6 +178,8 @@ def run(chk):
 
 def replay(obj):
     print(json.dumps(obj)[:3000])
+    if obj["kind"] == "choice-panic":
+        return 1
     if obj["kind"] == "choice-history":
         wd = vlib.workdir("replay")
         p = os.path.join(wd, "h.ndjson")
